@@ -13,12 +13,15 @@ import (
 	"math/big"
 	"math/rand"
 	"strings"
+	gosync "sync"
 	"testing"
+	"time"
 
 	"github.com/NethermindEth/juno/blockchain"
 	"github.com/NethermindEth/juno/blockchain/networks"
 	"github.com/NethermindEth/juno/core"
 	"github.com/NethermindEth/juno/core/felt"
+	"github.com/NethermindEth/juno/db"
 	"github.com/NethermindEth/juno/db/memory"
 	_ "github.com/NethermindEth/juno/encoder/registry"
 	"github.com/NethermindEth/juno/jsonrpc"
@@ -104,6 +107,32 @@ func newConcrete(seed int64) *concrete {
 	return c
 }
 
+// blockRec is what the chain builder remembers of a finalised block
+type blockRec struct {
+	header *core.Header
+	st     *absState // abstract state after the block
+}
+
+func (s *absState) clone() *absState {
+	c := &absState{deployed: map[string]string{}, nonce: map[string]int{}, store: map[string]map[string]int{}, declared: map[string]string{}}
+	for k, v := range s.deployed {
+		c.deployed[k] = v
+	}
+	for k, v := range s.nonce {
+		c.nonce[k] = v
+	}
+	for k, m := range s.store {
+		c.store[k] = map[string]int{}
+		for kk, vv := range m {
+			c.store[k][kk] = vv
+		}
+	}
+	for k, v := range s.declared {
+		c.declared[k] = v
+	}
+	return c
+}
+
 type absState struct {
 	deployed map[string]string
 	nonce    map[string]int
@@ -140,72 +169,132 @@ func minimalSierra(seed int64) *core.SierraClass {
 	}
 }
 
-// buildChain applies the behaviour block by block through Finalise and returns the chain and the abstract state.
-func buildChain(beh []stStep, cfg rpcConfig, conc *concrete) (*blockchain.Blockchain, *absState, *core.Header, error) {
-	bc := blockchain.New(memory.New(), &networks.Sepolia, blockchain.WithNewState(cfg.NewState))
-	st := &absState{deployed: map[string]string{}, nonce: map[string]int{}, store: map[string]map[string]int{}, declared: map[string]string{}}
-	var groups [][]stAction
-	cur := []stAction{}
-	for _, s := range beh {
-		if s.A.Name == "EndBlock" {
-			groups = append(groups, cur)
-			cur = []stAction{}
-			continue
-		}
-		cur = append(cur, s.A)
+// chain is a node under construction: blocks are appended through the real Blockchain.Finalise.
+type chain struct {
+	bc              *blockchain.Blockchain
+	store           db.KeyValueStore
+	cfg             rpcConfig
+	conc            *concrete
+	st              *absState
+	parent, oldRoot *felt.Felt
+	mu              gosync.Mutex
+	recs            []blockRec
+}
+
+func newChain(cfg rpcConfig, conc *concrete) *chain {
+	c := &chain{store: memory.New(), cfg: cfg, conc: conc, parent: &felt.Zero, oldRoot: &felt.Zero,
+		st: &absState{deployed: map[string]string{}, nonce: map[string]int{}, store: map[string]map[string]int{}, declared: map[string]string{}}}
+	c.bc = blockchain.New(c.store, &networks.Sepolia, blockchain.WithNewState(cfg.NewState))
+	return c
+}
+
+// restart: new Blockchain (state, tries, caches) on the same store
+func (c *chain) restart() {
+	c.bc = blockchain.New(c.store, &networks.Sepolia, blockchain.WithNewState(c.cfg.NewState))
+}
+
+func (c *chain) records() []blockRec {
+	c.mu.Lock()
+	defer c.mu.Unlock()
+	return append([]blockRec{}, c.recs...)
+}
+
+func (c *chain) finalise(g []stAction) error {
+	conc := c.conc
+	diff := &core.StateDiff{
+		StorageDiffs: map[felt.Felt]map[felt.Felt]*felt.Felt{}, Nonces: map[felt.Felt]*felt.Felt{},
+		DeployedContracts: map[felt.Felt]*felt.Felt{}, DeclaredV1Classes: map[felt.Felt]*felt.Felt{},
+		ReplacedClasses: map[felt.Felt]*felt.Felt{}, DeclaredV0Classes: []*felt.Felt{},
+		MigratedClasses: map[felt.SierraClassHash]felt.CasmClassHash{},
 	}
-	if len(cur) > 0 {
-		groups = append(groups, cur)
+	classes := map[felt.Felt]core.ClassDefinition{}
+	next := c.st.clone()
+	for _, a := range g {
+		next.apply(a)
+		switch a.Name {
+		case "Deploy":
+			diff.DeployedContracts[*conc.addr[a.C]] = conc.class[a.H]
+		case "Replace":
+			diff.ReplacedClasses[*conc.addr[a.C]] = conc.class[a.H]
+		case "Nonce":
+			diff.Nonces[*conc.addr[a.C]] = felt.NewFromUint64[felt.Felt](uint64(a.N))
+		case "Write":
+			m := diff.StorageDiffs[*conc.addr[a.C]]
+			if m == nil {
+				m = map[felt.Felt]*felt.Felt{}
+				diff.StorageDiffs[*conc.addr[a.C]] = m
+			}
+			m[*conc.slot[a.S]] = conc.val[a.V]
+		case "Declare":
+			diff.DeclaredV1Classes[*conc.sierra[a.K]] = conc.compiled[a.X]
+			classes[*conc.sierra[a.K]] = minimalSierra(c.cfg.Seed + int64(a.K[1]))
+		}
 	}
 	one := felt.NewFromUint64[felt.Felt](1)
-	parent, oldRoot := &felt.Zero, &felt.Zero
-	var head *core.Header
-	for bi, g := range groups {
-		diff := &core.StateDiff{
-			StorageDiffs: map[felt.Felt]map[felt.Felt]*felt.Felt{}, Nonces: map[felt.Felt]*felt.Felt{},
-			DeployedContracts: map[felt.Felt]*felt.Felt{}, DeclaredV1Classes: map[felt.Felt]*felt.Felt{},
-			ReplacedClasses: map[felt.Felt]*felt.Felt{}, DeclaredV0Classes: []*felt.Felt{},
-			MigratedClasses: map[felt.SierraClassHash]felt.CasmClassHash{},
-		}
-		classes := map[felt.Felt]core.ClassDefinition{}
-		for _, a := range g {
-			st.apply(a)
-			switch a.Name {
-			case "Deploy":
-				diff.DeployedContracts[*conc.addr[a.C]] = conc.class[a.H]
-			case "Replace":
-				diff.ReplacedClasses[*conc.addr[a.C]] = conc.class[a.H]
-			case "Nonce":
-				diff.Nonces[*conc.addr[a.C]] = felt.NewFromUint64[felt.Felt](uint64(a.N))
-			case "Write":
-				m := diff.StorageDiffs[*conc.addr[a.C]]
-				if m == nil {
-					m = map[felt.Felt]*felt.Felt{}
-					diff.StorageDiffs[*conc.addr[a.C]] = m
-				}
-				m[*conc.slot[a.S]] = conc.val[a.V]
-			case "Declare":
-				diff.DeclaredV1Classes[*conc.sierra[a.K]] = conc.compiled[a.X]
-				classes[*conc.sierra[a.K]] = minimalSierra(cfg.Seed + int64(a.K[1]))
-			}
-		}
-		receipts := []*core.TransactionReceipt{}
-		block := &core.Block{
-			Header: &core.Header{
-				ParentHash: parent, Number: uint64(bi), SequencerAddress: one, Timestamp: uint64(1_700_000_000 + bi),
-				ProtocolVersion: cfg.Version, EventsBloom: core.EventsBloom(receipts),
-				L1GasPriceETH: one, L1GasPriceSTRK: one, L2GasPrice: &core.GasPrice{PriceInWei: one, PriceInFri: one},
-				L1DataGasPrice: &core.GasPrice{PriceInWei: one, PriceInFri: one},
-			},
-			Transactions: []core.Transaction{}, Receipts: receipts,
-		}
-		su := &core.StateUpdate{OldRoot: oldRoot, StateDiff: diff}
-		if err := bc.Finalise(block, su, classes, nil); err != nil {
-			return nil, nil, nil, fmt.Errorf("Finalise block %d: %w", bi, err)
-		}
-		parent, oldRoot, head = block.Hash, block.GlobalStateRoot, block.Header
+	bi := len(c.recs)
+	receipts := []*core.TransactionReceipt{}
+	block := &core.Block{
+		Header: &core.Header{
+			ParentHash: c.parent, Number: uint64(bi), SequencerAddress: one, Timestamp: uint64(1_700_000_000 + bi),
+			ProtocolVersion: c.cfg.Version, EventsBloom: core.EventsBloom(receipts),
+			L1GasPriceETH: one, L1GasPriceSTRK: one, L2GasPrice: &core.GasPrice{PriceInWei: one, PriceInFri: one},
+			L1DataGasPrice: &core.GasPrice{PriceInWei: one, PriceInFri: one},
+		},
+		Transactions: []core.Transaction{}, Receipts: receipts,
 	}
-	return bc, st, head, nil
+	su := &core.StateUpdate{OldRoot: c.oldRoot, StateDiff: diff}
+	// the record is published BEFORE the block becomes visible, so that a reader can never see an unknown block
+	c.mu.Lock()
+	c.recs = append(c.recs, blockRec{header: block.Header, st: next})
+	c.mu.Unlock()
+	if err := c.bc.Finalise(block, su, classes, nil); err != nil {
+		c.mu.Lock()
+		c.recs = c.recs[:len(c.recs)-1]
+		c.mu.Unlock()
+		return fmt.Errorf("Finalise block %d: %w", bi, err)
+	}
+	c.st = next
+	c.parent, c.oldRoot = block.Hash, block.GlobalStateRoot
+	return nil
+}
+
+// groupsOf splits a behaviour into blocks; restart[i] = Restart before block i
+func groupsOf(beh []stStep) (groups [][]stAction, restart []bool) {
+	cur := []stAction{}
+	pending := false
+	for _, s := range beh {
+		switch s.A.Name {
+		case "Restart":
+			pending = true
+		case "EndBlock":
+			groups, restart = append(groups, cur), append(restart, pending)
+			cur, pending = []stAction{}, false
+		default:
+			cur = append(cur, s.A)
+		}
+	}
+	if len(cur) > 0 {
+		groups, restart = append(groups, cur), append(restart, pending)
+	}
+	return
+}
+
+// buildChain applies the behaviour block by block through Finalise (with the model's restarts).
+func buildChain(beh []stStep, cfg rpcConfig, conc *concrete) (*chain, error) {
+	c := newChain(cfg, conc)
+	groups, restart := groupsOf(beh)
+	for i, g := range groups {
+		if restart[i] {
+			c.restart()
+		}
+		if err := c.finalise(g); err != nil {
+			return nil, err
+		}
+	}
+	if cfg.Seed%2 == 1 {
+		c.restart() // serve from a freshly started node
+	}
+	return c, nil
 }
 
 // ---- wire format of starknet_getStorageProof (from the RPC specification)
